@@ -11,11 +11,10 @@
    with it the absence of run-time panics outside the modelled branches), and the clause that a
    template with an unterminated block or argument list is *rejected* (decided on generated
    instances; C08_illegal_character_is_rejected and C08_illegal_token_is_rejected prove rejection
-   whenever the token stream holds an ILLEGAL token - illegal character, unterminated string,
-   unterminated comment - given the shape of lexer output stated there, which is checked on every
-   generated input by the oracle and proved only for the stuck-lexer case). *)
+   for EVERY source whose token stream holds an ILLEGAL token - illegal character, unterminated
+   string, unterminated comment: C08_source_with_illegal_token_is_rejected). *)
 From Coq Require Import String.
-From TW Require Import Bytes GenToken Lexer LexTotal GenTie Ast Parser ParseTotal LexAll ParseReject.
+From TW Require Import Bytes GenToken Lexer LexTotal GenTie Ast Parser ParseTotal LexAll ParseReject LexShape.
 Local Open Scope string_scope.
 
 Theorem C08_next_token_always_returns l : nextTok l <> None.
@@ -85,6 +84,22 @@ Theorem C08_illegal_token_is_rejected ts :
   exists es, parse_tokens ts = ParseErrors es /\ es <> [].
 Proof. exact (parse_tokens_rejects_illegal ts). Qed.
 Print Assumptions C08_illegal_token_is_rejected.
+
+(* the two facts hold for the token stream of EVERY input: the ILLEGAL token of an unknown character repeats, the
+   ILLEGAL tokens of an unterminated string or comment leave the lexer at the end of the input (the next token is
+   EOF), and a directive that isDirectiveToken recognised is never lexed as ILLEGAL *)
+Theorem C08_lexer_output_shape input :
+  exists ts, lex_all input = Some ts /\ tinv ts = true /\ sok ts = true /\ eol ts = true.
+Proof. exact (lex_all_shape input). Qed.
+Print Assumptions C08_lexer_output_shape.
+
+(* so: every source whose token stream holds an ILLEGAL token - an illegal character, an unterminated string, an
+   unterminated comment, anywhere - is rejected with at least one error *)
+Theorem C08_source_with_illegal_token_is_rejected src ts :
+  lex_all src = Some ts -> existsb illT ts = true ->
+  exists es, parse_source src = ParseErrors es /\ es <> [].
+Proof. exact (source_with_illegal_token_is_rejected src ts). Qed.
+Print Assumptions C08_source_with_illegal_token_is_rejected.
 
 (* the hypotheses hold for the lexer's output on an unterminated string and on an unterminated comment *)
 Example C08_unterminated_examples :
